@@ -90,8 +90,9 @@ def tests_dominating(fn, block, _depth=0):
         if not cfg.edge_dominates(e, block):
             continue
         pv = du.val_place(du.canon(f[1]))
-        if pv[0] != "call" or (pv[1] or "").endswith("::next"):
+        if pv[0] == "call" and (pv[1] or "").endswith("::next"):
             continue          # the None arm of an iterator's next() is the end of a loop, not a condition on the data
+        # (pv is a place when the tested value is the result of an inlined helper: several return sites assign it)
         key = (e, repr(f[1]))
         if key in seen_fact:
             continue
